@@ -21,6 +21,12 @@ using db_t = unodb::mutex_db<std::uint64_t, unodb::value_view>;
 using db_t = unodb::olc_db<std::uint64_t, unodb::value_view>;
 #endif
 
+static void olc_thread_init() {
+#if DBKIND == 2
+  static bool done = false;
+  if (!done) { done = true; static unodb::detail::set_qsbr_per_thread_in_main_thread reg; }   // registers this (only) thread with QSBR, as the library does at start-up
+#endif
+}
 static unodb::value_view vv(const std::uint8_t* b, std::size_t n) { return unodb::value_view{reinterpret_cast<const std::byte*>(b), n}; }
 
 // all key lists are ascending, value byte of keys[i] is i+1
